@@ -192,10 +192,16 @@ structure St where
   tables : Array (Array UInt8) := #[]
   progs : List (List Obj) := []
 
-def featureOf (feats : List String) : String :=
-  if feats.contains "path-descends-through-scoped-object" then "path-descends-through-scoped-object"
-  else if feats.contains "scope-root" then "scope-root"
-  else "-"
+/-- the structural feature a failing clause is attributed to (known findings are keyed on
+clause + feature): the first of the clause's candidate features that the case exhibits -/
+def featureOf (clause : String) (feats : List String) : String :=
+  let cands :=
+    if clause = "parse-ok" then ["path-descends-through-scoped-object", "if-empty-body", "deferred-call-in-expression",
+                                 "deferred-nested-block", "name-caret"]
+    else if clause = "named-object-path" then ["name-caret", "path-descends-through-scoped-object"]
+    else if clause = "call-arity" then ["call-arg-expression", "deferred-nested-block", "name-caret"]
+    else []
+  (cands.find? feats.contains).getD "-"
 
 def sortNs (l : List (Path × String)) : List String :=
   ((l.map fun (p, d) => s!"{".".intercalate p}={d}").toArray.qsort (· < ·)).toList
@@ -244,9 +250,8 @@ def processLine (st : St) (line : String) : IO St := do
         st := { st with stats := st.stats.bump "mismatch" }
       -- 3. the property oracle on the implementation's tree
       let want := namespaceOf progs
-      let feat := featureOf st.feats
       let fail (clause detail : String) : IO Unit :=
-        IO.println s!"PROPFAIL case={st.caseId} clause={clause} feature={feat} op=T {handle} {hex} detail={detail} impl={(obsS.take 100).toString}"
+        IO.println s!"PROPFAIL case={st.caseId} clause={clause} feature={featureOf clause st.feats} op=T {handle} {(hex.take 300).toString} detail={detail} impl={(obsS.take 100).toString}"
       if !want.errors.isEmpty then
         IO.println s!"MISMATCH case={st.caseId} op=generator-ill-scoped model={want.errors} impl=-"
         st := { st with stats := st.stats.bump "mismatch" }
